@@ -42,7 +42,7 @@ Rewritings (E = expression, S = statement):
   E  dict([(k, v), ...]) / dict(((k, v), ...)) -> {k: v, ...};  dict(a=1) -> {'a': 1}
   E  list(map(f, xs)) -> [f(x) for x in xs]   (f a name or attribute chain; one iterable)
      list(filter(lambda i: c, xs)) -> [i for i in xs if c]
-  E  {*xs} -> set(xs);  (a,) + b  ->  (a, *b)                            (b must be a tuple for the original to succeed)
+  E  [*xs] -> list(xs);  {*xs} -> set(xs);  (a,) + b  ->  (a, *b)                            (b must be a tuple for the original to succeed)
   E  d.keys() as the iterable of a for loop / comprehension -> d
   S  x = list(E) / x.sort(key=K) -> x = sorted(E, key=K)                   (adjacent statements)
   S  errors = (ValueError, OverflowError) bound once, read only in `except errors` / isinstance(x, errors) -> the display there
@@ -72,6 +72,25 @@ from typing import List, Optional
 
 _COMPLEMENT = {ast.Eq: ast.NotEq, ast.NotEq: ast.Eq, ast.Is: ast.IsNot, ast.IsNot: ast.Is, ast.In: ast.NotIn, ast.NotIn: ast.In,
                ast.Lt: ast.GtE, ast.GtE: ast.Lt, ast.Gt: ast.LtE, ast.LtE: ast.Gt}
+_ORDERING = (ast.Lt, ast.LtE, ast.Gt, ast.GtE)
+
+
+def _complementable(cmp: ast.Compare) -> bool:
+    """`not (a OP b)` is `a COMPLEMENT(OP) b` for == != is in (always), and for < <= > >= only on a total order: sets are ordered by
+    inclusion (`not (A <= B)` is not `A > B`) and NaN compares false both ways.  Accepted: an int / str constant or a len() /
+    count() / ord() / int() call on either side."""
+    if not isinstance(cmp.ops[0], _ORDERING):
+        return True
+    def totally_ordered(e):
+        if isinstance(e, ast.Constant):
+            return isinstance(e.value, (int, str)) and not isinstance(e.value, bool)
+        if isinstance(e, ast.Call):
+            f = e.func
+            return (isinstance(f, ast.Name) and f.id in ("len", "ord", "int")) or (isinstance(f, ast.Attribute) and f.attr in ("count", "index", "__len__"))
+        return False
+    return totally_ordered(cmp.left) or totally_ordered(cmp.comparators[0])
+
+
 _IDENT = re.compile(r"^(?!__)[A-Za-z_][A-Za-z0-9_]*$")
 
 
@@ -128,6 +147,8 @@ class Canon(ast.NodeTransformer):
                 return e.operand
             return None
         if isinstance(e, ast.Compare) and len(e.ops) == 1:
+            if not _complementable(e):
+                return None
             return _at(ast.Compare(left=e.left, ops=[_COMPLEMENT[type(e.ops[0])]()], comparators=e.comparators), e)
         if isinstance(e, ast.BoolOp) and (truth_only or self._is_bool(e)):
             op = ast.Or() if isinstance(e.op, ast.And) else ast.And()
@@ -142,7 +163,7 @@ class Canon(ast.NodeTransformer):
             inner = None
             if isinstance(g.elt, ast.UnaryOp) and isinstance(g.elt.op, ast.Not):
                 inner = g.elt.operand
-            elif isinstance(g.elt, ast.Compare) and len(g.elt.ops) == 1:
+            elif isinstance(g.elt, ast.Compare) and len(g.elt.ops) == 1 and _complementable(g.elt):
                 inner = _at(ast.Compare(left=g.elt.left, ops=[_COMPLEMENT[type(g.elt.ops[0])]()], comparators=g.elt.comparators), g.elt)
             if inner is not None:
                 dual = "all" if e.func.id == "any" else "any"
@@ -303,7 +324,7 @@ class Canon(ast.NodeTransformer):
         # a negative test (not x, !=, is not, not in, <=, <) -> its positive complement with the arms swapped
         t = node.test
         if (isinstance(t, ast.UnaryOp) and isinstance(t.op, ast.Not)) or (
-                isinstance(t, ast.Compare) and len(t.ops) == 1 and isinstance(t.ops[0], self._NEGATIVE_OPS)):
+                isinstance(t, ast.Compare) and len(t.ops) == 1 and isinstance(t.ops[0], self._NEGATIVE_OPS) and _complementable(t)):
             pos = t.operand if isinstance(t, ast.UnaryOp) else _at(
                 ast.Compare(left=t.left, ops=[_COMPLEMENT[type(t.ops[0])]()], comparators=t.comparators), t)
             self._note("conditional expression with a negative test flipped", node)
@@ -406,6 +427,14 @@ class Canon(ast.NodeTransformer):
                 and isinstance(node.right, (ast.Name, ast.Attribute)):
             self._note("tuple + tuple -> display with *", node)
             return _at(ast.Tuple(elts=list(node.left.elts) + [_at(ast.Starred(value=node.right, ctx=ast.Load()), node.right)], ctx=ast.Load()), node)
+        return node
+
+    def visit_List(self, node: ast.List):
+        self.generic_visit(node)
+        # [*xs] -> list(xs)
+        if isinstance(node.ctx, ast.Load) and len(node.elts) == 1 and isinstance(node.elts[0], ast.Starred):
+            self._note("[*xs] -> list(xs)", node)
+            return self.visit_Call(_at(ast.Call(func=ast.Name(id="list", ctx=ast.Load()), args=[node.elts[0].value], keywords=[]), node))
         return node
 
     def visit_Set(self, node: ast.Set):
